@@ -1,6 +1,7 @@
 package main
 
 import (
+	"fmt"
 	"strings"
 
 	"verif/engine/core"
@@ -11,7 +12,7 @@ import (
 func init() {
 	register(&Check{
 		ID: "C12", Level: "exploration", QuickSecs: 150, ThoroughSecs: 1200,
-		Rule:        "grammars without blocks; a scanning-idiom family (the same terminal matching under ! at several increasing offsets: skip-until loops, keyword guards; 108 grammars, inputs over {a,b,newline} up to 5); a nested-call family (128 grammars: the nested call before and after the outer call recorded its farthest failure; whose predicate block - reporting no error - calls Parse of the same package on 4 other inputs before returning); a terminal spelling family (20 terminals: literals of every quoting / escape form / i, classes with ranges, ^, i, escapes, Unicode classes, non-ASCII, the empty and the inverted empty class; alone, under !, in a choice, in a loop before !.); (2 generation flag sets; 4, adding -optimize-basic-latin, for grammars with classes) over terminals {'a',\"ab\",\"b\"i,[ab],[^a],.,\"\"} with !/& nesting up to depth 3, seq/choice, two-rune literals failing on the second rune, terminals starting at the same offset on different paths (N<=5 quick, 6 thorough); all inputs over {a,b,\\n,é} up to L=3 (4); for every NON-matching input the complete error (position line:col (offset) of the farthest failure and the sorted, de-duplicated expected list with !-prefixed entries and EOF last) is compared with the one derived from the reference interpreter's terminal-attempt list. Non-trivial = expected list has >= 2 entries or an inverted entry. Plus left-recursive rules (bodies over {E,'a','b',!.} x {!,&,?} up to 4 nodes x 3 definitions of E, -support-left-recursion; finding D32) and the cross family (cross.go, 8 flag sets without -optimize-grammar).",
+		Rule:        "grammars without blocks; a scanning-idiom family (the same terminal matching under ! at several increasing offsets: skip-until loops, keyword guards; 108 grammars, inputs over {a,b,newline} up to 5); a nested-call family (128 grammars: the nested call before and after the outer call recorded its farthest failure; whose predicate block - reporting no error - calls Parse of the same package on 4 other inputs before returning); a many-records family (choices of 19..45 distinct keyword literals failing at one offset - alone, every keyword twice, next to negated entries and EOF, retried by a repetition, two overlapping choices; 45 grammars); a terminal spelling family (20 terminals: literals of every quoting / escape form / i, classes with ranges, ^, i, escapes, Unicode classes, non-ASCII, the empty and the inverted empty class; alone, under !, in a choice, in a loop before !.); (2 generation flag sets; 4, adding -optimize-basic-latin, for grammars with classes) over terminals {'a',\"ab\",\"b\"i,[ab],[^a],.,\"\"} with !/& nesting up to depth 3, seq/choice, two-rune literals failing on the second rune, terminals starting at the same offset on different paths (N<=5 quick, 6 thorough); all inputs over {a,b,\\n,é} up to L=3 (4); for every NON-matching input the complete error (position line:col (offset) of the farthest failure and the sorted, de-duplicated expected list with !-prefixed entries and EOF last) is compared with the one derived from the reference interpreter's terminal-attempt list. Non-trivial = expected list has >= 2 entries or an inverted entry. Plus left-recursive rules (bodies over {E,'a','b',!.} x {!,&,?} up to 4 nodes x 3 definitions of E, -support-left-recursion; finding D32) and the cross family (cross.go, 8 flag sets without -optimize-grammar).",
 		Assumptions: []string{"E1 loader", "reference failure tracking: failures under even predicate polarity, matches under odd polarity"},
 		Run:         runC12,
 	})
@@ -76,6 +77,45 @@ func runC12(c *ShardCtx) {
 					body = peg.Seq(peg.Star(t()), peg.Not(peg.Any()))
 				}
 				runGrammar(c, &peg.Grammar{Rules: []*peg.Rule{{Name: "S", Expr: body}}}, &famT)
+			}
+		}
+	}
+	// many records at one offset: choices of k distinct keyword literals (k around 20 and around 40:
+	// the sizes at which a pre-sized buffer fills up once, twice), alone, with every keyword twice,
+	// with negated entries and EOF among them, and retried by a repetition; the expected list must
+	// name every one of them exactly once, in order
+	{
+		famW := *fam
+		famW.inputs = [][]byte{{}, []byte("z"), []byte("kz"), []byte("k07"), []byte("k07z")}
+		for _, k := range []int{19, 20, 21, 22, 25, 39, 40, 41, 45} {
+			for shape := 0; shape < 5; shape++ {
+				idx++
+				if !c.Mine(idx) {
+					continue
+				}
+				var alts []*peg.Expr
+				for i := 0; i < k; i++ {
+					// (names chosen so that the definition order is not the sorted order)
+					alts = append(alts, peg.Lit(fmt.Sprintf("k%02d%c", (i*7)%k, 'a'+rune((i*5)%26))))
+				}
+				var body *peg.Expr
+				switch shape {
+				case 0:
+					body = peg.Choice(alts...)
+				case 1:
+					var twice []*peg.Expr
+					for _, a := range alts {
+						twice = append(twice, a, peg.Seq(a.Clone(), peg.Lit("#")))
+					}
+					body = peg.Choice(twice...)
+				case 2:
+					body = peg.Choice(append(alts, peg.Seq(peg.Not(peg.Lit("y")), peg.Not(peg.Any()), peg.Lit("q")))...)
+				case 3:
+					body = peg.Seq(peg.Star(peg.Seq(peg.Choice(alts...), peg.Lit(";"))), peg.Not(peg.Any()))
+				case 4:
+					body = peg.Seq(peg.Opt(peg.Lit("k")), peg.Choice(peg.Seq(peg.Choice(alts...), peg.Lit("#")), peg.Seq(peg.Choice(alts[:k/2]...), peg.Lit("!"))))
+				}
+				runGrammar(c, &peg.Grammar{Rules: []*peg.Rule{{Name: "S", Expr: body}}}, &famW)
 			}
 		}
 	}
